@@ -6,13 +6,13 @@
 
    Events (scn = scenario; one scenario = one fresh server + receiver):
      hdr    {desc, nsess, bound}
-     sess   {s, variant, reps:[{id, ct, toffmax}], segdur, mode:"number"|"time", streams, auth, dur (s, -1 none),
+     sess   {s, variant, reps:[{id, ct, toffmax}], segdurs (ms, one loop of the reference track), mode:"number"|"time", streams, auth, dur (s, -1 none),
              rt (real-time session), now (testNowMS), firstlo, firsthi (real time only), chunked}
      call   {c, op:"create"|"step"|"delete"|"get", s}      REST call issued by client c
      ret    {c, op, s, code}                               ... returned
      stuck  {c, op, s}                                     ... did not return within the bound
      settle {s}                                            real time only: grace period after DELETE returned is over
-     req    {k, s, rep, form, ext, ctype, ingest, auth, kind:"init"|"media"|"bad", nr (mfhd), toff (tfdt - nr*segticks),
+     req    {k, s, rep, form, ext, ctype, ingest, auth, kind:"init"|"media"|"bad", nr (mfhd), toff (tfdt - Start(nr) in the track's timescale),
              ud (URL number/time minus mfhd number / tfdt), lmsg, dg, dgx (digest without lmsg brand), berr,
              refcode, ref (digest of livesim2's own HTTP response), isig, rsig (init: structural signature
              of the received / the served init segment), seqok, ...}   a request ARRIVED at the receiver
@@ -30,18 +30,18 @@ Init == l = 1 /\ sess = NoSess /\ st = NoSess /\ rp = NoSess /\ MonitorInit
 
 RepIds(S) == {S.reps[k].id : k \in 1..Len(S.reps)}
 RepOf(S, id) == LET k == CHOOSE k \in 1..Len(S.reps) : S.reps[k].id = id IN S.reps[k]
-NLoS(S) == IF S.dur < 0 THEN -1 ELSE NLo(S.dur, S.segdur)
-NHiS(S) == IF S.dur < 0 THEN -1 ELSE NHi(S.dur, S.segdur)
-FirstLo(S) == IF S.rt THEN S.firstlo ELSE FirstNr(S.now, S.segdur)
-FirstHi(S) == IF S.rt THEN S.firsthi ELSE FirstNr(S.now, S.segdur)
+NLoS(S) == IF S.dur < 0 THEN -1 ELSE NLo(S.dur, S.segdurs)
+NHiS(S) == IF S.dur < 0 THEN -1 ELSE NHi(S.dur, S.segdurs)
+FirstLo(S) == IF S.rt THEN S.firstlo ELSE FirstNr(S.now, S.segdurs)
+FirstHi(S) == IF S.rt THEN S.firsthi ELSE FirstNr(S.now, S.segdurs)
 MaxStartsOf(s) == LET ids == DOMAIN rp[s] IN
                   CHOOSE m \in {rp[s][r].starts : r \in ids} : \A r \in ids : rp[s][r].starts <= m
 Known == e.s \in DOMAIN sess
 KnownRep == Known /\ e.rep \in DOMAIN rp[e.s]
-\* an upload whose body could not be read completely is tolerated iff a DELETE of the session had been issued
+\* an upload whose body is not a complete init / media segment is tolerated iff a DELETE of the session had been issued
 \* before the receiver gave up reading it (look-ahead to the request's reqend line; only evaluated for such bodies)
 AbortedByDelete ==
-   /\ e.kind = "bad" /\ e.berr
+   /\ e.kind = "bad"     \* (the receiver may or may not see a read error: a cancelled upload can also arrive as an empty body)
    /\ \E j \in l..Len(Trace) :
          /\ Trace[j].ev = "reqend" /\ Trace[j].scn = e.scn /\ Trace[j].k = e.k
          /\ \E i \in 1..j : Trace[i].ev = "call" /\ Trace[i].scn = e.scn /\ Trace[i].op = "delete" /\ Trace[i].s = e.s
